@@ -104,6 +104,12 @@ CHECKS = {
                 text="13 public-API scenarios under the shipped configuration and under 8 (thorough 19) alternative storage "
                      "unit / precision settings: same accept/refuse verdict on every jointly feasible path and equal "
                      "answers in user units (volumes, concentrations, plate observers, usage tracking)."),
+    'C19': dict(engine=E1, design='§4 C19',
+                technique="symbolic execution with the text helpers un-stubbed; displayed numbers carried through the instruction text as tags, parsed back and compared with the contents delta by z3 (output rounding modelled)",
+                text="get_human_readable_unit and convert_from_storage_to_standard_format preserve the physical amount for "
+                     "every magnitude and sign; the instruction lines of constructor, transfer (liquid and solids-only "
+                     "sources, 4 unit kinds), dilute, fill_to, create_solution, create_solution_from and 7 recipe step "
+                     "kinds name the actual objects and state the actual amount to the displayed precision."),
     'C02': dict(engine=E1, design='§4 C02',
                 technique="symbolic execution of Container.transfer/Plate.transfer with z3 (QF_NRA/LRA), differential vs independent unit table",
                 text="size of the aliquot (in the unit of q), uniformity (cross-multiplied ratios) and destination gain "
